@@ -10,6 +10,8 @@ Import ListNotations.
 Open Scope Z_scope.
 
 Definition s (x : string) : str := zs x.
+(* unless said otherwise the examples are about the default Ribosome(): no custom filters *)
+#[local] Instance no_custom : FTable := [].
 Definition leak_ctx : ctx := [(s "x", VStr (s "{{y}}")); (s "y", VStr (s "LEAK"))].
 
 Definition impl_text (o : outcome) : option str := match o with Ok t _ => Some t | Err _ => None end.
@@ -190,7 +192,47 @@ Proof. vm_compute. reflexivity. Qed.
 (* items that compare equal in Python but print differently: 1, True, 1.0 *)
 Example ex_equal_items :
   impl_text (render_impl false []
-               [(s "xs", VList [IInt 1; IBool true; IOpaque (s "1.0") (s "1.0"); INone])]
+               [(s "xs", VList [IInt 1; IBool true; IOpaque (s "1.0") (s "1.0") (s "1.0"); INone])]
                (print [NEach (s " ") (s "xs") [LText (s "["); LDot; LText (s "]")]])) =
   Some (s "[1][True][1.0][None]").
 Proof. vm_compute. reflexivity. Qed.
+
+(* filters see the raw value: a JSON snippet that carries template syntax, through json / repr /
+   title / upper / length, directly and through an include; (1,) as a loop-sequence item has its
+   own json.dumps() text *)
+Definition ex_payload : ctx :=
+  [(s "p", VStr (s "{""ask"": ""{{secret}}""}")); (s "secret", VStr (s "S"));
+   (s "xs", VList [IStr (s "{x}"); IDict [(s "k", s "}}")]; IBool true; INone; IOpaque (s "(1,)") (s "(1,)") (s "[1]")])].
+Example ex_filter_raw_value :
+  ctx_ok ex_payload = true /\ word (s "p") = true /\ is_filter (s "json") = true /\
+  apply_filter (s "json") (VStr (s "{""ask"": ""{{secret}}""}")) = inl (s """{\""ask\"": \""{{secret}}\""}""") /\
+  render_impl false [] ex_payload (print [NLeaf (LPipe (s "p") (s "json"))]) =
+    Ok (s """{\""ask\"": \""{{secret}}\""}""") [] /\
+  impl_text (render_impl true (print_templates [(s "inner", [NLeaf (LText (s "[")); NLeaf (LPipe (s "p") (s "repr")); NLeaf (LText (s "]"))])])
+               ex_payload
+               (print [NLeaf (LInc (s "inner")); NLeaf (LPipe (s "p") (s "title")); NLeaf (LPipe (s "p") (s "length"));
+                       NLeaf (LPipe (s "xs") (s "json"))])) =
+    Some (s "['{""ask"": ""{{secret}}""}']{""Ask"": ""{{Secret}}""}21[""{x}"", {""k"": ""}}""}, true, null, [1]]") /\
+  snd (render_taint false [] ex_payload (print [NLeaf (LPipe (s "p") (s "json")); NLeaf (LPipe (s "xs") (s "repr"))])) = [].
+Proof. vm_compute. repeat split; reflexivity. Qed.
+
+(* a custom filter table: a brace-sensitive filter, a filter whose RESULT is template syntax, a
+   custom filter that replaces the built-in "upper", one that returns an int.  Each sees the raw
+   value; its result is data (empty taint log); "lower" is still the built-in *)
+Definition ex_table : FTable :=
+  [(s "parens", CParens); (s "wrap", CWrap); (s "upper", CRev); (s "size", CLen)].
+Example ex_custom_filters :
+  ftable_ok ex_table = true /\
+  @apply_filter ex_table (s "parens") (VStr (s "{a}")) = inl (s "(a)") /\
+  impl_text (@render_impl ex_table false [] ex_payload
+               (print [NLeaf (LPipe (s "p") (s "parens")); NLeaf (LText (s "|")); NLeaf (LPipe (s "secret") (s "wrap"));
+                       NLeaf (LText (s "|")); NLeaf (LPipe (s "p") (s "upper")); NLeaf (LText (s "|"));
+                       NLeaf (LPipe (s "xs") (s "size")); NLeaf (LPipe (s "secret") (s "lower"));
+                       NLeaf (LPipe (s "secret") (s "parens x"))])) =
+    Some (s "(""ask"": ""((secret))"")|{{S}}|}""}}terces{{"" :""ksa""{|5sS") /\
+  snd (@render_taint ex_table false [] ex_payload
+         (print [NLeaf (LPipe (s "p") (s "parens")); NLeaf (LPipe (s "secret") (s "wrap"))])) = [] /\
+  (* the same template on the default instance: unknown filters warn and render str(value) *)
+  render_impl false [] ex_payload (print [NLeaf (LPipe (s "secret") (s "wrap"))]) =
+    Ok (s "S") [WUnknownFilter (s "wrap")].
+Proof. vm_compute. repeat split; reflexivity. Qed.
